@@ -276,12 +276,10 @@ def run(tier, seed):
         native = {}
         reproduced = False
         try:
-            if name.startswith("monotone"):
-                native["duplicate"] = native_stm("duplicate")
-                mm = re.match(r"\[A\]=(\S+) \[A,A\]=(\S+)", native["duplicate"])
-                reproduced = bool(mm) and mm.group(1) == "accepted" and mm.group(2) != "accepted"
-            else:
-                native["note"] = "no native scenario for this clause"
+            native["duplicate"] = native_stm("duplicate")
+            native["clerk_battery"] = native_stm("clerk_battery")
+            mm = re.match(r"\[A\]=(\S+) \[A,A\]=(\S+)", native["duplicate"])
+            reproduced = (bool(mm) and mm.group(1) == "accepted" and mm.group(2) != "accepted") or "VIOLATED" in native["clerk_battery"]
         except Exception as e:
             native["error"] = str(e)
         path = core.write_replay("C02", kk, {"property": "C02", "role": role, "obligation": ob.name, "shape": shape, "counterexample": ob.counterexample, "native_replay": native})
